@@ -74,6 +74,11 @@ def single_literals():
     # line continuations (a backslash directly followed by a newline skips following whitespace: space, \t, \n, \r only)
     NL = "\n"
     L += [f'"a\\{NL}   b"', f'"a\\{NL}\t\tb"', f'"a\\{NL}{NL}  {NL}b"', f'"a\\{NL}\u00a0b"', f'"a\\{NL}  \u2003b"', f'"a\\{NL}   "', f'"\\{NL}b"', f'"a\\{NL}\u00a0"', f'"ñ\\{NL} \\u{{e9}}"']
+    # after a continuation rustc skips exactly ' ', \t, \n, \r: every other white-space character stays (each one alone, after
+    # spaces, and after a second newline), incl. the ASCII ones outside that set (vertical tab, form feed) and the
+    # information separators
+    for ws in ["\x0b", "\x0c", "\x1c", "\x1f", "\u0085", "\u1680", "\u2000", "\u200a", "\u2028", "\u2029", "\u202f", "\u205f", "\u3000", "\ufeff", "\u200b"]:
+        L += [f'"a\\{NL}{ws}b"', f'"a\\{NL}  {ws} b"', f'"\\{NL}{NL}{ws}"']
     # raw strings with 0..2 hashes
     L += ['r"a\\nb"', 'r"\\"', 'r#"a"b"#', 'r##"a"#b"##', 'r#"#"#', 'r"ñ€"', 'r""', 'r#""#', 'r##"""##', 'r"a\\u{e9}"', 'r"😀"']
     # plain
